@@ -504,6 +504,10 @@ enum Sh {
     T(usize, Kind),
     /// boolean literal (no marker)
     Lit(bool),
+    /// `array(LITERAL n, INIT)`: the initializer runs exactly n times (n = 0 … 6)
+    ArrayLitSize(usize, Box<Sh>),
+    /// `sz <- 2; array(sz, begin sz <- sz + 3; INIT end)`: the size is read once, before any element
+    ArrayVarSize(Box<Sh>),
     Bin(&'static str, Box<Sh>, Box<Sh>),
     Call(Vec<Sh>),
     Method(Box<Sh>, Vec<Sh>),
@@ -614,7 +618,13 @@ impl<'r> ShGen<'r> {
     /// a top-level shape (value of any kind, printed afterwards)
     fn shape(&mut self, which: usize, depth: u32) -> Sh {
         let d = depth;
-        match which % 16 {
+        match which % 18 {
+            16 => {
+                let n = self.rng.below(7);
+                let i = self.operand(Kind::Int, d);
+                Sh::ArrayLitSize(n, Box::new(i))
+            }
+            17 => Sh::ArrayVarSize(Box::new(self.operand(Kind::Int, d))),
             0 => {
                 let op = *self.rng.pick(&["+", "-", "*", "==", "<", "<=", "!=", "/", "%"]);
                 let l = self.operand(Kind::Int, d);
@@ -729,6 +739,17 @@ impl ShEmit {
         match s {
             Sh::T(k, kind) => tracer(*k, *kind),
             Sh::Lit(b) => AST::Boolean(*b),
+            Sh::ArrayLitSize(n, i) => AST::array(AST::Integer(*n as i32), self.ast(i)),
+            Sh::ArrayVarSize(i) => AST::block(vec![
+                AST::assign_variable(idn("sz"), AST::Integer(2)),
+                AST::array(
+                    AST::access_variable(idn("sz")),
+                    AST::block(vec![
+                        AST::assign_variable(idn("sz"), AST::call_method(AST::access_variable(idn("sz")), idn("+"), vec![AST::Integer(3)])),
+                        self.ast(i),
+                    ]),
+                ),
+            ]),
             Sh::Bin(op, l, r) => AST::call_method(self.ast(l), idn(op), vec![self.ast(r)]),
             Sh::Call(a) => AST::call_function(idn(&format!("id{}", a.len())), a.iter().map(|x| self.ast(x)).collect()),
             Sh::Method(o, a) => AST::call_method(self.ast(o), idn(&format!("m{}", a.len())), a.iter().map(|x| self.ast(x)).collect()),
@@ -777,6 +798,17 @@ fn predict(s: &Sh, out: &mut Vec<String>, loops: &mut usize) {
     match s {
         Sh::T(k, _) => out.push(format!("<{}>", k)),
         Sh::Lit(_) => {}
+        Sh::ArrayLitSize(n, i) => {
+            let times = if let Sh::FieldGet(_) = **i { 1 } else { *n };
+            for _ in 0..times {
+                predict(i, out, loops);
+            }
+        }
+        Sh::ArrayVarSize(i) => {
+            for _ in 0..2 {
+                predict(i, out, loops);
+            }
+        }
         Sh::Bin(_, l, r) => {
             predict(l, out, loops);
             predict(r, out, loops);
@@ -849,6 +881,7 @@ fn predict(s: &Sh, out: &mut Vec<String>, loops: &mut usize) {
 fn has_nested_loop(s: &Sh, repeated: bool) -> bool {
     match s {
         Sh::T(..) | Sh::Lit(_) => false,
+        Sh::ArrayLitSize(_, i) | Sh::ArrayVarSize(i) => has_nested_loop(i, true),
         Sh::Loop(b) => repeated || has_nested_loop(b, true),
         Sh::ArrayCompound(n, i) => has_nested_loop(n, repeated) || has_nested_loop(i, true),
         Sh::Bin(_, l, r) => has_nested_loop(l, repeated) || has_nested_loop(r, repeated),
@@ -883,6 +916,7 @@ function id9(a, b, c, d, e, f, g, h, i) -> a;
 function id10(a, b, c, d, e, f, g, h, i, j) -> begin print(\"[~~~]\", h, i, j); a end;
 function id12(a, b, c, d, e, f, g, h, i, j, k, l) -> begin print(\"[~~~~]\", i, j, k, l); a end;
 let cnt = 0;
+let sz = 0;
 let gv = 0;
 let garr = array(3, 5);
 let gobj = object begin let fld = 1;
@@ -976,7 +1010,7 @@ pub fn c13(ctx: &Ctx, rep: &mut Report) {
         predict(&sh, &mut predicted, &mut loops);
         let mut jr = ctx.rng("C13j", i);
         let j = judge(rep, "C13", &format!("shape#{}", i), &ast, &src, &mut jr, if i % 8 == 0 { JudgeOpts::full() } else { JudgeOpts::fast() });
-        rep.bump("c13-shape", ["binary-int", "binary-bool", "call", "method", "object", "array-simple", "array-compound", "index-get", "index-set", "field-set", "field-get", "print", "if", "loop", "object-index-set", "block"][which % 16]);
+        rep.bump("c13-shape", ["binary-int", "binary-bool", "call", "method", "object", "array-simple", "array-compound", "index-get", "index-set", "field-set", "field-get", "print", "if", "loop", "object-index-set", "block", "array-literal-size", "array-size-variable-mutated"][which % 18]);
         rep.bump("c13-depth", &format!("{}", depth));
         if !j.judged {
             continue;
